@@ -1081,6 +1081,13 @@ def run(chk) -> None:
     for q in ("BpSeq.convert_to_dot_bracket", "BpSeq.all_dot_brackets"):
         check_conflict_graph(chk, repo.func(MOD, q))
     check_fcfs(chk)
+    # third encoder: the enumeration (components, permutations, first-fit, product) - shared with C16
+    from checks import c16
+
+    fi_all = repo.func(MOD, "BpSeq.all_dot_brackets")
+    c16.check_components(chk, fi_all)
+    c16.check_permutation_greedy(chk, fi_all)
+    c16.check_product(chk, fi_all)
     check_fill(chk)
     check_decoder(chk)
     check_from_dotbracket(chk)
